@@ -4,6 +4,7 @@
 import Jb.Proofs.EngineVolume
 import Jb.Proofs.Postfilter
 import Jb.Props.C20
+import Jb.Proofs.SynthBridge
 
 set_option linter.unusedSectionVars false
 
@@ -88,5 +89,20 @@ theorem synthesize_volume_db [FloorRing K] [MlpgConsts K] (hexp0 : Transc.exp (0
     engineSynthesize fx (c.setVolume v) b inp =
       (engineSynthesize fx (c.setVolume 0) b inp).map fun w => w.map (· * Transc.exp (v * Consts.db)) :=
   engineSynthesize_setVolume hexp0 fx c v b inp
+
+/-! ### for the whole library (`Jb/Proofs/SynthBridge.lean`): any voice set, weights, setter history, labels -/
+
+/-- **C16 from the voice files.** Appending `set_volume(v)` to any setter history multiplies every sample of what
+    `Engine::synthesize` returns by `exp(v·ln10/20)` relative to appending `set_volume(0)` — same outcome class, same
+    length — for every voice set (well-formed or not), weights, labels and time stamps. `SpeedOnly f` says the model's
+    `speed == 1.0` test reads the speed only (without it the statement is false: `Synth.Cex.volume_needs_speedOnly`). -/
+theorem library_volume_is_gain {K : Type} [Field K] [LinearOrder K] [IsStrictOrderedRing K] [FloorRing K]
+    [Transc K] [Consts K] [MlpgConsts K] [FromFile K] (hexp0 : Transc.exp (0 : K) = 1) (fx : Fix) (big : K)
+    (voices : List Hts.ParsedVoice) (iw : IW K) (ops : List (CondOp K)) (f : Condition K → Bool) (hf : Synth.SpeedOnly f)
+    (labels : List (List Char)) (times : List (K × K)) (v : K) :
+    Synth.synthesize fx big voices iw (ops ++ [.vol v]) f labels times =
+      (Synth.synthesize fx big voices iw (ops ++ [.vol 0]) f labels times).map
+        fun w => w.map (· * Transc.exp (v * Consts.db)) :=
+  Synth.synthesize_volume hexp0 fx big voices iw ops f hf labels times v
 
 end Jb.C16
